@@ -4,6 +4,7 @@
   reads, for ALL shapes, ranks, sparsity patterns, fill values and element types.
 -/
 import SparseV.Lemmas.Rewrite
+import SparseV.Lemmas.Shape
 namespace SparseV.C08
 open SparseV SparseV.COO
 variable {α : Type}
@@ -44,8 +45,197 @@ theorem reshape_preserves_linear (x : COO α) (s : List Nat) (hwf : x.WF) (hsize
     have hlt : ravel e.1 x.shape < prod s := hsize ▸ ravel_lt hin
     simp [ravel_unravel s _ hlt]
 
+/-- **transpose_get.** `transpose` by any permutation `axes` of the axis numbers reads result
+element `j` from the operand element `i` with `i[a] = j[position of a in axes]`
+(`i = j[argsort axes]`); the result shape is `shape[axes]`, the fill value is unchanged.
+Holds for every rank, including the identity permutation (where the operand itself is returned). -/
+theorem transpose_get (x : COO α) (axes : List Nat) (hp : axes.Perm (List.range x.shape.length))
+    (hwf : x.WF) (hnd : (keysOf x.entries).Nodup) (j : Idx) (hj : InB j (gather x.shape axes)) :
+    (x.transposeCore axes).get j = x.get (gather j (invPerm axes))
+    ∧ (x.transposeCore axes).shape = gather x.shape axes ∧ (x.transposeCore axes).fill = x.fill := by
+  have hjl : j.length = x.shape.length := by
+    rw [InB_length hj, length_gather]; exact (perm_range_facts hp).1
+  unfold transposeCore
+  by_cases hid : axes = List.range x.shape.length
+  · subst hid
+    have h1 := gather_invPerm_gather hp hjl
+    rw [gather_range _ _ (by simp)] at h1
+    simp only [if_true, and_true, h1, gather_range_self]
+  · simp only [hid, if_false, and_true, COO.get]
+    rw [mapIdx_eq_rewrite]
+    refine rewrite_sort_lookup _ _ _ _ (fun j => gather j (invPerm axes)) j hnd ?_ ?_
+    · intro e he j' hg
+      simp only [Option.some.injEq] at hg
+      rw [← hg]
+      exact gather_gather_invPerm hp (InB_length (hwf e he))
+    · simp only [gather_invPerm_gather hp hjl]
+
+/-- the operand index read by `transpose_get` is inside the operand shape -/
+theorem transpose_src_inb (x : COO α) (axes : List Nat) (hp : axes.Perm (List.range x.shape.length))
+    (j : Idx) (hj : InB j (gather x.shape axes)) : InB (gather j (invPerm axes)) x.shape :=
+  InB_gather_invPerm hp hj
+
+/-- the permutation hypothesis of `transpose_get` is exactly what `transpose` validates:
+`n` distinct axis numbers, all below `n` -/
+theorem transpose_axes_valid_iff (axes : List Nat) (n : Nat) :
+    axes.Perm (List.range n) ↔ axes.Nodup ∧ (∀ a ∈ axes, a < n) ∧ axes.length = n := perm_range_iff
+
+/-- **transpose_canonical.** `transpose` hands the permuted coordinates to the constructor with
+`has_duplicates=False`; after the constructor's sort the stored entries are in canonical order
+(strictly increasing row-major linear location in the NEW shape).  When `axes` is the identity the
+operand itself is returned, so there the operand has to be canonical already (`hid`). -/
+theorem transpose_canonical (x : COO α) (axes : List Nat) (hp : axes.Perm (List.range x.shape.length))
+    (hwf : x.WF) (hnd : (keysOf x.entries).Nodup)
+    (hid : axes = List.range x.shape.length → SortedLin x.shape x.entries) :
+    SortedLin (x.transposeCore axes).shape (x.transposeCore axes).entries := by
+  unfold transposeCore
+  by_cases h : axes = List.range x.shape.length
+  · simp only [h, if_true]; exact hid h
+  · simp only [h, if_false]
+    rw [mapIdx_eq_rewrite]
+    refine sortEntries_rewrite_sortedLin _ _ _ (fun j => gather j (invPerm axes)) ?_ hnd ?_
+    · intro e he j' hg
+      simp only [Option.some.injEq] at hg
+      rw [← hg]
+      exact gather_gather_invPerm hp (InB_length (hwf e he))
+    · intro e he j' hg
+      simp only [Option.some.injEq] at hg
+      rw [← hg]
+      exact InB_gather (hwf e he) (fun a ha => ((perm_range_facts hp).2.2 a).mp ha)
+
+/-- **flip_get.** `flip` along any set of axes reads result element `j` from the operand element
+with coordinate `d - 1 - j[a]` on every flipped axis `a` (extent `d`) and `j[a]` elsewhere; shape and
+fill value are unchanged.  (Axis numbers ≥ rank are inert in the model, so no bound on `axes` is
+needed.) -/
+theorem flip_get (x : COO α) (axes : List Nat) (hwf : x.WF) (hnd : (keysOf x.entries).Nodup)
+    (j : Idx) (hj : InB j x.shape) :
+    (x.flipCore axes).get j = x.get (flipIdx x.shape axes j)
+    ∧ (x.flipCore axes).shape = x.shape ∧ (x.flipCore axes).fill = x.fill := by
+  unfold flipCore
+  simp only [and_true, COO.get]
+  rw [mapIdx_eq_rewrite]
+  refine rewrite_sort_lookup _ _ _ _ (flipIdx x.shape axes) j hnd ?_ ?_
+  · intro e he j' hg
+    simp only [Option.some.injEq] at hg
+    rw [← hg]
+    exact flipIdx_flipIdx axes (hwf e he)
+  · simp only [flipIdx_flipIdx axes hj]
+
+/-- the operand index read by `flip_get` is inside the shape -/
+theorem flip_src_inb (x : COO α) (axes : List Nat) (j : Idx) (hj : InB j x.shape) :
+    InB (flipIdx x.shape axes j) x.shape := InB_flipIdx axes hj
+
+/-- **roll_get.** `roll` with any list of (axis, shift) pairs — negative shifts, shifts larger than
+the extent, repeated axes — applies `c ↦ (c + s) % d` pair by pair; result element `j` is read from
+the operand element obtained by undoing the pairs in reverse order with the opposite shifts.
+Shape and fill value are unchanged.  (An in-bounds `j` forces every rolled axis below the rank to
+have positive extent, and axis numbers ≥ rank are inert in the model, so neither needs assuming.) -/
+theorem roll_get (x : COO α) (axes : List Nat) (shifts : List Int) (hl : axes.length = shifts.length)
+    (hwf : x.WF) (hnd : (keysOf x.entries).Nodup) (j : Idx) (hj : InB j x.shape) :
+    (x.rollCore axes shifts).get j
+      = x.get (rollIdx x.shape axes.reverse (shifts.reverse.map fun s => -s) j)
+    ∧ (x.rollCore axes shifts).shape = x.shape ∧ (x.rollCore axes shifts).fill = x.fill := by
+  unfold rollCore
+  simp only [and_true, COO.get]
+  rw [mapIdx_eq_rewrite]
+  refine rewrite_sort_lookup _ _ _ _
+    (rollIdx x.shape axes.reverse (shifts.reverse.map fun s => -s)) j hnd ?_ ?_
+  · intro e he j' hg
+    simp only [Option.some.injEq] at hg
+    rw [← hg]
+    exact rollIdx_inv_left hl (hwf e he)
+  · simp only [rollIdx_inv_right hl hj]
+
+/-- the operand index read by `roll_get` is inside the shape -/
+theorem roll_src_inb (x : COO α) (axes : List Nat) (shifts : List Int) (j : Idx) (hj : InB j x.shape) :
+    InB (rollIdx x.shape axes.reverse (shifts.reverse.map fun s => -s) j) x.shape :=
+  InB_rollIdx _ _ hj
+
+/-- single-axis reading of `roll_get`: one roll by `s` along axis `a < rank` reads result element
+`j` from the operand element whose coordinate on axis `a` is `(j[a] - s) mod d`. -/
+theorem roll_get_single (x : COO α) (a : Nat) (s : Int) (hwf : x.WF) (hnd : (keysOf x.entries).Nodup)
+    (j : Idx) (hj : InB j x.shape) :
+    (x.rollCore [a] [s]).get j
+      = x.get (j.set a (((j.getD a 0 : Int) + -s) % ((x.shape.getD a 0 : Nat) : Int)).toNat) :=
+  (roll_get x [a] [s] rfl hwf hnd j hj).1
+
+/-- **squeeze_get.** `squeeze` over axes of extent 1 reads result element `j` from the operand
+element `i = unsqueezeIdx shape axes j`, which is the unique in-bounds operand index whose
+remaining coordinates are `j` (its coordinates on the squeezed axes are 0 because the extents are
+1); the result shape is the operand shape without the squeezed axes, the fill value is unchanged. -/
+theorem squeeze_get (x : COO α) (axes : List Nat) (hone : ∀ a ∈ axes, x.shape.getD a 0 = 1)
+    (hwf : x.WF) (j : Idx) (hj : InB j (dropAxes x.shape axes)) :
+    (x.squeezeCore axes).get j = x.get (unsqueezeIdx x.shape axes j)
+    ∧ InB (unsqueezeIdx x.shape axes j) x.shape
+    ∧ dropAxes (unsqueezeIdx x.shape axes j) axes = j
+    ∧ (x.squeezeCore axes).shape = dropAxes x.shape axes ∧ (x.squeezeCore axes).fill = x.fill := by
+  refine ⟨?_, InB_unsqueeze hj hone, dropAxes_unsqueeze hj, rfl, rfl⟩
+  unfold squeezeCore
+  simp only [COO.get]
+  rw [mapIdx_eq_rewrite]
+  refine rewrite_lookup _ _ _ (unsqueezeIdx x.shape axes) j ?_ ?_
+  · intro e he j' hg
+    simp only [Option.some.injEq] at hg
+    rw [← hg]
+    exact unsqueeze_dropAxes (hwf e he) hone
+  · simp only [dropAxes_unsqueeze hj]
+
+/-- uniqueness used in `squeeze_get`: an in-bounds operand index is determined by its coordinates
+on the axes that remain -/
+theorem squeeze_src_unique (x : COO α) (axes : List Nat) (hone : ∀ a ∈ axes, x.shape.getD a 0 = 1)
+    (i : Idx) (hi : InB i x.shape) : unsqueezeIdx x.shape axes (dropAxes i axes) = i :=
+  unsqueeze_dropAxes hi hone
+
+/-- **expand_dims_get.** `expand_dims` at position `pos ≤ rank` reads the result element at
+`j` with a 0 inserted at `pos` from operand element `j`; the result shape is the operand shape with
+a 1 inserted at `pos`, the fill value is unchanged. -/
+theorem expand_dims_get (x : COO α) (pos : Nat) (hpos : pos ≤ x.shape.length) (hwf : x.WF)
+    (j : Idx) (hj : InB j x.shape) :
+    (x.expandDimsCore pos).get (insertAt j pos 0) = x.get j
+    ∧ InB (insertAt j pos 0) (x.expandDimsCore pos).shape
+    ∧ (x.expandDimsCore pos).shape = insertAt x.shape pos 1 ∧ (x.expandDimsCore pos).fill = x.fill := by
+  have hjl : pos ≤ j.length := by rw [InB_length hj]; exact hpos
+  refine ⟨?_, InB_insertAt pos hj hpos, rfl, rfl⟩
+  unfold expandDimsCore
+  simp only [COO.get]
+  rw [mapIdx_eq_rewrite]
+  have h := rewrite_lookup x.entries x.fill (fun i => some (insertAt i pos 0)) (fun k => k.eraseIdx pos)
+    (insertAt j pos 0) ?_ ?_
+  · rw [h, eraseIdx_insertAt pos j 0 hjl]
+  · intro e he j' hg
+    simp only [Option.some.injEq] at hg
+    rw [← hg]
+    exact eraseIdx_insertAt pos e.1 0 (by rw [InB_length (hwf e he)]; exact hpos)
+  · simp only [eraseIdx_insertAt pos j 0 hjl]
+
+/-- **expand_dims_onto.** every in-bounds index of the `expand_dims` result is an operand index with
+a 0 inserted at `pos`, so `expand_dims_get` describes every result element. -/
+theorem expand_dims_onto (x : COO α) (pos : Nat) (hpos : pos ≤ x.shape.length) (k : Idx)
+    (hk : InB k (x.expandDimsCore pos).shape) : ∃ j, InB j x.shape ∧ k = insertAt j pos 0 :=
+  InB_insertAt_surj pos x.shape k hpos hk
+
 /-- non-vacuity: a concrete 2×3 → 3×2 reshape -/
 def exA : COO Int := { shape := [2, 3], entries := [([0, 1], 5), ([1, 2], 7)], fill := 0 }
 example : (exA.reshapeCore [3, 2]).get [2, 1] = 7 ∧ exA.WF ∧ prod exA.shape = prod [3, 2] := by decide
+
+/-- non-vacuity of the transpose / flip / roll theorems: a 2×3 array with stored entries out of
+row-major order after the coordinate change; every hypothesis is checked on it. -/
+def exB : COO Int := { shape := [2, 3], entries := [([0, 1], 5), ([0, 2], 6), ([1, 0], 7)], fill := 0 }
+example : (exB.transposeCore [1, 0]).get [2, 0] = exB.get [0, 2] ∧ exB.get [0, 2] = 6 :=
+  ⟨(transpose_get exB [1, 0] (by decide) (by decide) (by decide) [2, 0] (by decide)).1, by decide⟩
+example : SortedLin (exB.transposeCore [1, 0]).shape (exB.transposeCore [1, 0]).entries :=
+  transpose_canonical exB [1, 0] (by decide) (by decide) (by decide) (fun h => absurd h (by decide))
+example : (exB.flipCore [1]).get [0, 0] = exB.get [0, 2] ∧ exB.get [0, 2] = 6 :=
+  ⟨(flip_get exB [1] (by decide) (by decide) [0, 0] (by decide)).1, by decide⟩
+/-- negative shift, shift larger than the extent, repeated axis -/
+example : (exB.rollCore [1, 0, 1] [-4, 3, 2]).get [0, 1] = exB.get [1, 0] ∧ exB.get [1, 0] = 7 :=
+  ⟨(roll_get exB [1, 0, 1] [-4, 3, 2] rfl (by decide) (by decide) [0, 1] (by decide)).1, by decide⟩
+/-- non-vacuity of squeeze / expand_dims: a 1×2×1×2 array squeezed over axes 0 and 2 -/
+def exC : COO Int := { shape := [1, 2, 1, 2], entries := [([0, 0, 0, 1], 3), ([0, 1, 0, 0], 4)], fill := 0 }
+example : (exC.squeezeCore [0, 2]).get [1, 0] = 4 ∧ (exC.squeezeCore [0, 2]).shape = [2, 2]
+    ∧ unsqueezeIdx exC.shape [0, 2] [1, 0] = [0, 1, 0, 0]
+    ∧ (∀ a ∈ [0, 2], exC.shape.getD a 0 = 1) ∧ exC.WF ∧ InB [1, 0] (dropAxes exC.shape [0, 2]) := by decide
+example : (exA.expandDimsCore 1).get [1, 0, 2] = 7 ∧ (exA.expandDimsCore 1).shape = [2, 1, 3]
+    ∧ insertAt [1, 2] 1 0 = [1, 0, 2] ∧ 1 ≤ exA.shape.length ∧ InB [1, 2] exA.shape := by decide
 
 end SparseV.C08
